@@ -79,6 +79,12 @@ OpRemoveL(e, h) == /\ En("rl") /\ h \in 0..nn /\ (h = 0 \/ \A x \in Events : x #
                    /\ UNCHANGED <<flt, nn, nf, frames, ndisp, bad>> /\ UQ /\ H("rl", e, h)
 OpQueryL(op, e, h) == /\ En(op) /\ h \in 0..nn /\ UNCHANGED <<lst, flt, nn, nf, frames, ndisp, bad>> /\ UQ /\ H(op, e, h)
 
+\* forEach(event, function) whose function is user code: the traversal of a dispatch without filters, the function may change listeners
+OpForEachUser(e) ==
+  /\ En("fu") /\ Len(frames) < MaxDepth
+  /\ frames' = Append(frames, [k |-> "D", e |-> e, uid |-> 0, ph |-> "u", ftodo |-> <<>>, todo |-> lst[e], cur |-> 0, explicit |-> TRUE])
+  /\ UNCHANGED <<lst, flt, nn, nf, ndisp, bad>> /\ UQ /\ H("fu", e, 0)
+
 OpAppendF == /\ En("af") /\ nf < MaxFilters /\ flt' = Append(flt, nf + 1) /\ nf' = nf + 1
              /\ UNCHANGED <<lst, nn, frames, ndisp, bad>> /\ UQ /\ H("af", 0, 0)
 OpRemoveF(h) == /\ En("rf") /\ h \in 1..nf /\ flt' = Without(flt, h)
@@ -153,7 +159,7 @@ OpEndNoDrain == /\ En("zz") /\ frames = <<>> /\ qlist # <<>> /\ UNCHANGED <<lst,
 \* ------------------------------------------------------------------ returns from user code
 Live(e, s) == SelectSeq(s, LAMBDA x : InSeq(lst[e], x))
 LiveF(s) == SelectSeq(s, LAMBDA x : InSeq(flt, x))
-RetListener == /\ frames # <<>> /\ Top.k = "D" /\ Top.cur # 0 /\ Top.ph = "l"
+RetListener == /\ frames # <<>> /\ Top.k = "D" /\ Top.cur # 0 /\ Top.ph \in {"l", "u"}
                /\ frames' = SetTop([Top EXCEPT !.cur = 0])
                /\ UNCHANGED <<lst, flt, nn, nf, ndisp, bad>> /\ UQ /\ H("t", 0, 0)
 RetFilter(d, v) == /\ frames # <<>> /\ Top.k = "D" /\ Top.cur # 0 /\ Top.ph = "f"
@@ -195,7 +201,7 @@ Tau ==
           /\ IF Top.ph = "f" THEN
                  IF LiveF(Top.ftodo) # <<>> THEN frames' = SetTop([Top EXCEPT !.ftodo = Tail(LiveF(@)), !.cur = Head(LiveF(Top.ftodo))])
                  ELSE frames' = SetTop([Top EXCEPT !.ph = "l", !.todo = lst[Top.e]])
-             ELSE IF Top.ph = "l" /\ Live(Top.e, Top.todo) # <<>> THEN frames' = SetTop([Top EXCEPT !.todo = Tail(Live(Top.e, @)), !.cur = Head(Live(Top.e, Top.todo))])
+             ELSE IF Top.ph \in {"l", "u"} /\ Live(Top.e, Top.todo) # <<>> THEN frames' = SetTop([Top EXCEPT !.todo = Tail(Live(Top.e, @)), !.cur = Head(Live(Top.e, Top.todo))])
              ELSE frames' = PopF                                                  \* dispatch finished (or blocked by a filter)
      ELSE \* processing frame
           LET p == Top IN
@@ -221,7 +227,7 @@ Tau ==
 
 Next == \/ \E e \in Events : \/ OpAppendL(e) \/ OpPrependL(e) \/ OpAppendW("aw", e) \/ OpAppendW("aa", e) \/ OpDispatch(e) \/ OpEnqueue(e)
                              \/ \E h \in 0..MaxNodes : OpInsertL(e, h) \/ OpRemoveL(e, h) \/ OpQueryL("ol", e, h)
-                             \/ OpQueryL("hl", e, 0) \/ OpQueryL("fl", e, 0)
+                             \/ OpQueryL("hl", e, 0) \/ OpQueryL("fl", e, 0) \/ OpForEachUser(e)
         \/ OpAppendF \/ \E h \in 1..MaxFilters : OpRemoveF(h)
         \/ OpProcess("pa", "all") \/ OpProcess("po", "one") \/ OpProcess("pi", "if") \/ OpProcess("pu", "until")
         \/ OpPeek \/ OpTake \/ OpClear \/ OpEmptyQ \/ OpEndNoDrain
